@@ -16,11 +16,13 @@ TRUSTED = [
     'OSC 1.0 address-pattern semantics transcribed by hand (model/OscMatch.v osc_lang, harness/oracles/oscpattern.py)',
 ]
 ASSUMES = [
-    'every responder is created with its own function object and func is only replaced by fresh function objects',
-    'responder functions and template predicates do not raise and do not touch other responders',
-    'template values and message arguments compared by the template are ints/strings (Python == is structural there)',
+    'responder functions and template callables may raise Exceptions: the property then only requires that later messages are still '
+    'delivered (model/DispatchExc.v says what the code does with the message at hand); they do not touch OTHER responders',
+    'function objects may be shared between responders (compared by tag); wrappers are distinct per responder (C18_shared_function.diff)',
+    'template values are compared with Python == (0 == 0.0 == False); callables are taken by truthiness',
     'responders are not made permanent; callbacks run by CmdPeriod/ServerAction/NotificationCenter only unregister entries of their own registry',
-    'cross-dispatcher order (exact vs matching dispatcher live in a set) is not part of the statement',
+    'cross-dispatcher order (exact vs matching dispatcher live in a set) is not part of the statement; histories that share functions or '
+    'raise use one dispatcher kind',
 ]
 
 LITS = 'abc/01'
@@ -257,7 +259,7 @@ def corr_pairs(ctx, c):
 # (ii) responder histories through the real receive path
 PATHS = ['/a', '/ab', '/a/b', '/b', 'a', '/abc', '/', '/a/', '']
 ADDRS = ['/a', '/ab', '/a/b', '/b', '/abc', '/?', '/a*', '/{a,ab}', '/[ab]', '/*', '/a?', '/*/b', '/[!b]*', '/c',
-         '/', '/a/', '/a/*', '/*/', '/{,a}', '/[a-]']
+         '/', '/a/', '/a/*', '/*/', '/{,a}', '/[a-]', '/[', '/{a', '/a}', '/[c-a]']
 SRCS = [None, ['127.0.0.1', None], ['127.0.0.1', 9001], ['127.0.0.2', None], ['127.0.0.1', 0], ['0.0.0.0', None]]
 SENDERS = [['127.0.0.1', 9001], ['127.0.0.1', 9002], ['127.0.0.2', 9001], ['127.0.0.1', 0], ['0.0.0.0', 9001]]
 F0, FM0, F1 = str(0), str(1 << 63), str(0x3ff0000000000000)          # 0.0, -0.0, 1.0 as binary64 words
@@ -477,8 +479,9 @@ Definition inv_agree (a b : inv) : bool :=
   (Nat.eqb (i_id b) 77777 || Nat.eqb (i_id a) (i_id b)) && Nat.eqb (i_tag a) (i_tag b) && omsg_eqb (i_msg a) (i_msg b) && time_agree (i_time a) (i_time b)
   && (fst (i_src a) =? fst (i_src b)) && (snd (i_src a) =? snd (i_src b)) && (i_port a =? i_port b).
 (* invocations of the two dispatchers may interleave either way in the implementation: compare per dispatcher *)
+(* a history that shares function objects uses one dispatcher kind only: a wildcard id has the kind of responder 0 *)
 Definition is_matching (st : dstate) (i : inv) : bool :=
-  match nth_error (resps st) (i_id i) with Some r => r_matching r | None => false end.
+  match nth_error (resps st) (if Nat.eqb (i_id i) 77777 then 0%nat else i_id i) with Some r => r_matching r | None => false end.
 Definition split_d (st : dstate) (l : list inv) : list inv :=
   filter (fun i => negb (is_matching st i)) l ++ filter (is_matching st) l.
 (* the dispatchers' tables, the enabled flags and CmdPeriod's registry after every operation *)
@@ -791,13 +794,14 @@ def corr_rt(ctx, c):
                                   '_in_awake_call left %s), expected [a, b, c]' % (aex['log'], aex['raised'], ex['in_awake_call']),
                                   signature='C18:callback-exception-breaks-dispatch', found_input=True, theorem='receiver_survives',
                                   replay={'kind': 'probe', 'probe': 'exception', 'impl': [ex, aex]}))
+    # outside the property (coordinator's decision; C08 owns clock survival and reads "exception" as Exception
+    # subclasses): a callback raising a BaseException that is not an Exception ends the SystemClock thread
+    # like any Python thread.  Observed and recorded, never a failure.
     if abx['log'] != ['a', 'b', 'c'] or abx['raised'] or bx['raised']:
-        c.failures.append(Failure('correspondence', 'a responder function raises a BaseException that is not an Exception (like SystemExit from sys.exit()): '
-                                  'invoked %s; the NEXT message then invokes %s (%s), expected [a, b, c]: the SystemClock thread that runs the '
-                                  'responders has ended, no later message reaches any responder' % (bx['log'], abx['log'], abx['raised']),
-                                  signature='C18:callback-baseexception-kills-dispatch', found_input=True, theorem='receiver_survives',
-                                  replay={'kind': 'probe', 'probe': 'baseexception', 'impl': [bx, abx],
-                                          'how': "OscFunc(lambda: sys.exit(), '/p'); send '/p' twice"}))
+        text = ('observation, not required by C18: a responder function raising a non-Exception BaseException (e.g. sys.exit()) ends the '
+                'SystemClock thread; invoked %s, the next message then invokes %s (%s)' % (bx['log'], abx['log'], abx['raised']))
+        c.notes.append(text)
+        c.known_demonstrated.append(('C18:callback-baseexception-kills-dispatch', text))
     # (ii)
     items = []
     for h, o in zip(hists, res['histories']):
